@@ -535,7 +535,7 @@ func (i *interpreter) equalsT(t types.Type, x, y value) *Term {
 		if xv.t == rtypeType || xv.t == errorType {
 			return tt.boolConst(equals(xv.t, xv.v, yi.v))
 		}
-		if !types.Comparable(xv.t) {
+		if !comparableType(xv.t) {
 			panic(i.rtPanic("comparing uncomparable type " + xv.t.String()))
 		}
 		return i.equalsT(xv.t, xv.v, yi.v)
@@ -637,4 +637,12 @@ func (i *interpreter) concValue(v value) value {
 		return string(bs)
 	}
 	return v
+}
+
+// comparableType is types.Comparable extended to the engine's own fake types.
+func comparableType(t types.Type) bool {
+	if t == rtypeType || t == errorType {
+		return true
+	}
+	return types.Comparable(t)
 }
